@@ -81,9 +81,11 @@ pub fn gen_plan(rng: &mut Prng) -> DotPlan {
     let formula = if rng.chance(1, 2) {
         let cfg = fast::gen_cfg(rng, 5, 5);
         let mut f = fast::gen_formula(rng, &cfg);
-        // repeated sub-terms are what makes sharing in the export interesting
-        if rng.coin() {
-            f = F::Bin(fast::BinOp::Or, Box::new(f.clone()), Box::new(F::Not(Box::new(f))));
+        // repeated sub-terms and near-twins are what makes sharing in the export interesting
+        match rng.below(4) {
+            0 => f = F::Bin(fast::BinOp::Or, Box::new(f.clone()), Box::new(F::Not(Box::new(f)))),
+            1 | 2 => f = fast::with_near_twin(rng, &f),
+            _ => {}
         }
         Some((f, rng.next_u64(), rng.below(3) as u8))
     } else {
